@@ -512,7 +512,11 @@ func Gen(seed uint64, tier string) *Config {
 			o = Op{Kind: "public", Src: r.IntN(16)}
 		case x < 90:
 			o = Op{Kind: "path", SeedHex: genSeed()}
-			for i := r.IntN(5); i > 0; i-- {
+			depth := r.IntN(5)
+			if r.IntN(10) == 0 {
+				depth = 5 + r.IntN(6)
+			}
+			for i := depth; i > 0; i-- {
 				o.Path = append(o.Path, genIndex())
 			}
 		default:
